@@ -4,6 +4,7 @@ import (
 	"fmt"
 	"go/types"
 	"sort"
+	"strings"
 )
 
 // State is a symbolic program state. pc is a Bool term; all assumptions live in the
@@ -44,8 +45,23 @@ func (x *Exec) heapInit(key string) string {
 		}
 		// declared up-front so that every obligation sees it
 		x.u.decls = append(x.u.decls, fmt.Sprintf("(declare-const %s %s)", name, srt))
+		x.heapTyping(key, name)
 	}
 	return name
+}
+
+// heapTyping asserts the type invariant of a fresh incarnation of a heap array where the
+// element type has one that reads inside quantified contracts cannot state themselves.
+func (x *Exec) heapTyping(key, arr string) {
+	if key == "db.store.val" {
+		// every stored value is a byte string
+		srt := x.u.heapKeys[key]
+		ids := strings.TrimSuffix(strings.TrimPrefix(srt, "(Array Int (Array "), " "+x.bytesSort()+"))")
+		sel := fmt.Sprintf("(select (sarr_Int (select (select %s d) id)) i)", arr)
+		x.u.fact(fmt.Sprintf("(forall ((d Int) (id %s) (i Int)) (! (and (<= 0 %s) (<= %s 255)) :pattern (%s)))", ids, sel, sel, sel))
+		ln := fmt.Sprintf("(slen_Int (select (select %s d) id))", arr)
+		x.u.fact(fmt.Sprintf("(forall ((d Int) (id %s)) (! (>= %s 0) :pattern (%s)))", ids, ln, ln))
+	}
 }
 
 func (x *Exec) getHeap(st *State, key string) string {
@@ -57,6 +73,7 @@ func (x *Exec) getHeap(st *State, key string) string {
 
 func (x *Exec) havocHeap(st *State, key string) {
 	st.heap[key] = x.u.fresh(key, x.u.heapKeys[key])
+	x.heapTyping(key, st.heap[key])
 }
 
 func (x *Exec) and(a, b string) string {
